@@ -9,7 +9,7 @@ from linear_operator.operators import (
     DiagLinearOperator,
 )
 
-from .multivariate_normal import MultivariateNormal
+from .multivariate_normal import _normalize_index as _normalize_index_object, MultivariateNormal
 
 
 class MultitaskMultivariateNormal(MultivariateNormal):
@@ -335,11 +335,13 @@ class MultitaskMultivariateNormal(MultivariateNormal):
         # Normalize index to a tuple
         if not isinstance(idx, tuple):
             idx = (idx,)
+        # numpy integers / 0-dim integer tensors -> int, lists and 1-dim boolean masks -> integer index tensors
+        idx = tuple(_normalize_index_object(i) for i in idx)
 
-        if ... in idx:
+        if any(i is ... for i in idx):
             # Replace ellipsis '...' with explicit indices
-            ellipsis_location = idx.index(...)
-            if ... in idx[ellipsis_location + 1 :]:
+            ellipsis_location = [i is ... for i in idx].index(True)
+            if any(i is ... for i in idx[ellipsis_location + 1 :]):
                 raise IndexError("Only one ellipsis '...' is supported!")
             prefix = idx[:ellipsis_location]
             suffix = idx[ellipsis_location + 1 :]
@@ -366,6 +368,19 @@ class MultitaskMultivariateNormal(MultivariateNormal):
         else:
             # We have an index that extends over all dimensions
             batch_idx = idx[:-2]
+            if any(torch.is_tensor(i) for i in batch_idx) and (torch.is_tensor(idx[-2]) or torch.is_tensor(idx[-1])):
+                # Index tensors on a batch dimension AND a point / task dimension are paired element by element (as in
+                # mean[idx]): the selected components may belong to different, independent batch members
+                num_points, num_tasks = self._output_shape[-2:]
+                size = num_points * num_tasks
+                pos = torch.arange(self.mean.numel(), device=self.mean.device).view(self.mean.shape)[idx]
+                b, flat = pos.div(size, rounding_mode="floor"), pos.remainder(size)
+                if not self._interleaved:
+                    flat = flat.remainder(num_tasks) * num_points + flat.div(num_tasks, rounding_mode="floor")
+                dense_cov = self.lazy_covariance_matrix.to_dense().expand(*self.mean.shape[:-2], size, size)
+                new_cov = dense_cov.reshape(-1, size, size)[b.unsqueeze(-1), flat.unsqueeze(-1), flat.unsqueeze(-2)]
+                new_cov = new_cov * (b.unsqueeze(-1) == b.unsqueeze(-2))
+                return MultivariateNormal(mean=new_mean, covariance_matrix=new_cov)
             if self._interleaved:
                 row_idx = idx[-2]
                 col_idx = idx[-1]
@@ -429,14 +444,15 @@ class MultitaskMultivariateNormal(MultivariateNormal):
                     col_idx = torch.arange(num_cols)[col_idx]
                 row_grid, col_grid = torch.meshgrid(row_idx, col_idx, indexing="ij")
                 indices = (row_grid * num_cols + col_grid).reshape(-1)
-                new_cov = self.lazy_covariance_matrix[batch_idx + (indices,)][..., indices]
+                # (batch dimensions first: an index tensor on a batch dimension must not pair up with the flattened event indices)
+                new_cov = self.lazy_covariance_matrix[batch_idx][..., indices, :][..., :, indices]
                 return MultitaskMultivariateNormal(
                     mean=new_mean, covariance_matrix=new_cov, interleaved=self._interleaved, validate_args=False
                 )
             else:
                 # row_idx and col_idx have pairs of indices
                 indices = row_idx * num_cols + col_idx
-                new_cov = self.lazy_covariance_matrix[batch_idx + (indices,)][..., indices]
+                new_cov = self.lazy_covariance_matrix[batch_idx][..., indices, :][..., :, indices]
                 return MultivariateNormal(
                     mean=new_mean,
                     covariance_matrix=new_cov,
